@@ -3289,7 +3289,9 @@ int bufr_merge_dataset ( BUFR_Dataset *dest, int dest_pos, BUFR_Dataset *src,  i
 
    srccount = bufr_count_datasubset( src );
    destcount = bufr_count_datasubset( dest );
-   if (nb > srccount) nb = srccount;
+   if ((src_pos < 0)||(dest_pos < 0)) return -1;
+   if (src_pos >= srccount) nb = 0;
+   else if (nb > srccount - src_pos) nb = srccount - src_pos; /* only what the source holds from src_pos on */
    if (dest_pos >= destcount)
       {
       for (i = destcount; i <= dest_pos ; i++ )
